@@ -143,7 +143,7 @@ def run(ctx, prog):
                        nontrivial=bool(tr.pre_reads))
                 # ---- P3
                 probs = []
-                for nm, loc in tr.static_locals:
+                for nm, loc in tr.mutable_statics:
                     probs.append('static local `%s` at %s' % (nm, loc))
                 for q, (const, loc) in tr.globals_read.items():
                     if not const and not q.startswith(ALLOWED_GLOBALS):
